@@ -15,7 +15,7 @@ case $DDIR in gin|echo|fiber|chi|http) MODDIR=$WT/$DDIR;; esac
 run_demo() { (cd $WT/$DDIR && go test -vet=off -count=1 -run "TestSeed$ID" . 2>&1 | tail -3); }
 echo "--- demo on unpatched HEAD"; run_demo; R1=${PIPESTATUS[0]}
 (cd $WT/$DDIR && go test -vet=off -count=1 -run "TestSeed$ID" . >/dev/null 2>&1); D0=$?
-if ! git -C $WT apply --3way $SD/patch.diff 2>/tmp/apply_$ID.err; then echo "PATCH DOES NOT APPLY"; cat /tmp/apply_$ID.err; git -C /repo worktree remove --force $WT; exit 8; fi
+if ! git -C $WT apply $SD/patch.diff 2>/tmp/apply_$ID.err; then echo "PATCH DOES NOT APPLY $ID"; cat /tmp/apply_$ID.err; git -C /repo worktree remove --force $WT; exit 8; fi
 mv $WT/$DDIR/zz_seed_${ID}_test.go /tmp/zz_seed_${ID}_test.go.aside
 (cd $WT && go test -vet=off -count=1 ./... >/tmp/suite_$ID.log 2>&1); S1=$?
 S2=0
